@@ -73,10 +73,10 @@ pub fn write_folded_block<W: Write>(
             continue;
         }
 
-        // If the line starts with a space, avoid wrapping. Wrapping could move those
+        // If the line starts with a space or a tab, avoid wrapping. Wrapping could move those
         // leading spaces across a folded newline and interact with YAML's
         // "more-indented" rule.
-        if line.starts_with(' ') {
+        if line.starts_with(' ') || line.starts_with('\t') {
             out.write_str(indent_str)?;
             out.write_str(line)?;
             out.write_char('\n')?;
@@ -113,7 +113,11 @@ pub fn write_folded_block<W: Write>(
             if in_space_run && ch != ' ' {
                 // run_end = previous char boundary (prev_i + prev_ch_len)
                 let run_end = prev_i + prev_ch_len;
-                last_space_run = Some((run_start, run_end, run_len));
+                // A continuation line starting with a tab would be "more-indented": its line
+                // break is kept instead of folded, so never break right before a tab.
+                if ch != '\t' {
+                    last_space_run = Some((run_start, run_end, run_len));
+                }
                 in_space_run = false;
                 run_len = 0;
             }
